@@ -304,9 +304,18 @@ func (a *vAgent) conn(peerAddr string) *PFCPConn {
 // is ordered after f (the race detector sees no edge through UDP sockets on Linux).
 func (a *vAgent) quiesced(f func()) {
 	var held []*PFCPConn
+	stuck := false
 	a.iface.node.pConns.Range(func(k, v interface{}) bool {
 		c := v.(*PFCPConn)
-		c.handlerMu.Lock()
+		// a handler that never returns keeps its lock for ever: the harness must not wedge behind it
+		deadline := time.Now().Add(30 * time.Second)
+		for !c.handlerMu.TryLock() {
+			if time.Now().After(deadline) {
+				stuck = true
+				return false
+			}
+			time.Sleep(200 * time.Microsecond)
+		}
 		held = append(held, c)
 		return true
 	})
@@ -315,6 +324,18 @@ func (a *vAgent) quiesced(f func()) {
 			c.handlerMu.Unlock()
 		}
 	}()
+	if stuck {
+		// f is not run (it would race with whatever holds the lock); the caller sees zero values. If the holder is a
+		// handler parked in repository code this is a wedge, otherwise nothing can be said.
+		if vCurRes != nil {
+			if frame, dump := vParkedHandler(); frame != "" {
+				vCurRes.violate(vCurRes.Property+".WEDGE", frame, "an association's message handler has been holding its handler lock for 30 s: it is parked in "+frame+" with no datapath call outstanding", map[string]interface{}{"goroutine": dump})
+			} else {
+				vCurRes.inconclusive("an association's handler lock could not be taken for 30 s (no parked handler found in the dump)")
+			}
+		}
+		return
+	}
 	f()
 }
 
